@@ -676,9 +676,20 @@ def main():
             futs = {name: ex.submit(tlc.run_tlc, "Trim", cfg_of(c), dump=True, coverage=True, workers=8 if name != "A" else 16)
                     for name, c in fams.items()}
             fctrl = ex.submit(tlc.run_tlc, "Trim", cfg_of(ctrl), dump=False, coverage=False, workers=2)
+            errs = []
             for name, fu in futs.items():
-                results[name] = fu.result()
-            rctrl = fctrl.result()
+                try:
+                    results[name] = fu.result()
+                except Exception as ex_:  # collect, so that the other runs' scratch dirs are still cleaned up
+                    errs.append(ex_)
+            try:
+                rctrl = fctrl.result()
+                results["_ctrl"] = rctrl
+            except Exception as ex_:
+                errs.append(ex_)
+            if errs:
+                raise errs[0]
+            del results["_ctrl"]
 
         phase['tlc_all_runs_concurrent'] = round(time.time() - t_ph, 1)
         t_ph = time.time()
@@ -797,6 +808,8 @@ def main():
     finally:
         pool.terminate()
         pool.join()
+        for res_ in results.values():  # idempotent; keeps nothing under /tmp on any exit path
+            res_.cleanup()
 
     # ---- information only (not part of the verdict)
     info = {}
